@@ -478,10 +478,29 @@ func c01Families(thorough bool) []*engine.IFamily {
 	return []*engine.IFamily{matrix, nm, rejected}
 }
 
+// c01Scenarios: messages of two connections processed at the same time are answered as if processed one
+// after the other: each request gets exactly its response, on its own connection, referencing its counter.
+func c01Scenarios(thorough bool) []*engine.SScenario {
+	pre := []string{"bind:A:e1f1:L1lc:lc:d", "sub:A:e1f1:L1lc:lc:d"}
+	scs := []*engine.SScenario{
+		linScenario(pre, [][]string{{"read:A:e1f1:L1lc"}, {"read:B:e1f1:L1lc"}}, nil),
+		linScenario(pre, [][]string{{"write:A:e1f1:L1lc:limit:ack:2"}, {"read:B:e1f1:L1lc", "write:B:e1f1:L1lc:limit:ack:1"}}, nil),
+		linScenario(pre, [][]string{{"sub:A:e2f1:L2lc:lc:d", "read:A:e1f1:L2lc"}, {"bind:B:e1f1:L2lc:lc:d", "write:B:e1f1:L2lc:limit:ack:2"}}, nil),
+	}
+	if thorough {
+		scs = append(scs,
+			linScenario(pre, [][]string{{"read:A:e1f1:L1lc", "unbind:A:e1f1:L1lc:d"}, {"read:B:e1f1:L1lc"}, {"set:L1lc:2"}}, nil),
+			linScenario(pre, [][]string{{"write:A:e1f1:L1lc:limit:ack:2", "write:A:e1f1:L1lc:limit:noack:1"}, {"unsub:B:e1f1:L1lc:d", "sub:B:e1f1:L1lc:lc:d"}}, nil))
+	}
+	return scs
+}
+
 func init() {
 	engine.Register(&engine.Check{
-		ID:       "C01",
-		Families: func(c *engine.Ctx) []*engine.IFamily { return c01Families(c.Thorough) },
+		ID:        "C01",
+		NeedsRace: true,
+		Scenarios: func(c *engine.Ctx) []*engine.SScenario { return c01Scenarios(c.Thorough) },
+		Families:  func(c *engine.Ctx) []*engine.IFamily { return c01Families(c.Thorough) },
 		Run: func(c *engine.Ctx) *engine.Report {
 			rep := &engine.Report{Level: "model_checking", Coverage: map[string]any{}}
 			engine.RunFamilies(c, c01Families(c.Thorough), rep)
@@ -489,6 +508,7 @@ func init() {
 			rep.Coverage["states"] = 2
 			rep.Coverage["transitions"] = int(ev)
 			rep.Coverage["traces_validated_against_impl"] = int(ev)
+			mergeS(c, rep, c01Scenarios(c.Thorough), engine.SPlan{Bounds: boundsFor(c, []int{0, 1, 2}, []int{0, 1, 2, 3}), Race: true, RaceMaxBound: 1, RaceFuncs: []string{"Sender", "ProcessCmd", "HandleMessage", "processRead", "processWrite"}})
 			rep.Assumptions = []string{"don't-care zones: acceptance of reply/notify addressed to server features (structural rules only), the response to a call of subscription/binding data, Generic features; only datagrams with classifier reply/result are responses (requests and notifications the stack sends on its own are judged by C03/C08)"}
 			return rep
 		},
